@@ -95,6 +95,70 @@ fn apply_edit(f: &mut Font, tr: &mut Track, op: &str) {
 }
 
 pub fn observe(toks: &[&str], scratch: &Path) -> String {
+    observe_ext(toks, scratch, false)
+}
+
+/// crafted relative paths (C09): 1-4 store keys through the API, 5-7 a source tree edited by hand before the load,
+/// 8 image key `..`
+fn craft_tree(src: &Path, craft: u32) {
+    let edit = |file: &Path, from: &str, to: &str| {
+        let s = std::fs::read_to_string(file).unwrap();
+        std::fs::write(file, s.replace(from, to)).unwrap();
+    };
+    match craft {
+        5 => {
+            // contents.plist value pointing two levels up; the glif is moved there so that the load succeeds
+            edit(&src.join("glyphs/contents.plist"), "<string>a.glif</string>", "<string>../../esc.glif</string>");
+            std::fs::rename(src.join("glyphs/a.glif"), src.parent().unwrap().join("esc.glif")).unwrap();
+        }
+        6 => {
+            std::fs::create_dir(src.join("glyphs/sub")).unwrap();
+            edit(&src.join("glyphs/contents.plist"), "<string>a.glif</string>", "<string>sub/../a.glif</string>");
+        }
+        7 => {
+            // a layer directory given with a nested path: Layer.path keeps the last component only
+            std::fs::create_dir_all(src.join("nest")).unwrap();
+            std::fs::create_dir_all(src.join("nest/glyphs.n")).unwrap();
+            std::fs::write(
+                src.join("nest/glyphs.n/contents.plist"),
+                "<?xml version=\"1.0\" encoding=\"UTF-8\"?>\n<plist version=\"1.0\"><dict></dict></plist>\n",
+            )
+            .unwrap();
+            edit(
+                &src.join("layercontents.plist"),
+                "</array>\n</plist>",
+                "<array><string>nested</string><string>nest/glyphs.n</string></array></array>\n</plist>",
+            );
+        }
+        _ => {}
+    }
+}
+
+fn craft_font(font: &mut Font, tr: &mut Track, craft: u32) {
+    match craft {
+        1 => {
+            ins(font, tr, 'd', "../x.txt", b"x".to_vec());
+        }
+        2 => {
+            ins(font, tr, 'd', "../../esc.txt", b"esc".to_vec());
+        }
+        3 => {
+            ins(font, tr, 'd', "./dot.txt", b"dot".to_vec());
+        }
+        4 => {
+            ins(font, tr, 'd', "q/../b.txt", b"b".to_vec());
+        }
+        8 => {
+            ins(font, tr, 'i', "..", png("dd"));
+        }
+        9 => {
+            ins(font, tr, 'd', "../../../esc3.txt", b"esc3".to_vec());
+        }
+        _ => {}
+    }
+}
+
+pub fn observe_ext(toks: &[&str], scratch: &Path, fresh: bool) -> String {
     let sb = scratch.join("sb");
     rm_rf(&sb);
     std::fs::create_dir_all(sb.join("o/m")).unwrap();
@@ -115,6 +179,7 @@ pub fn observe(toks: &[&str], scratch: &Path) -> String {
             i.push(("bad.png", b"GIF89a".to_vec()));
         }
         write_source_tree(&src, rich, &d, &i);
+        craft_tree(&src, num(toks, "craft"));
         tr.root = Some("o/m/src.ufo".into());
         match guarded(|| Font::load(&src)) {
             Ok(Ok(f)) => f,
@@ -139,7 +204,12 @@ pub fn observe(toks: &[&str], scratch: &Path) -> String {
             _ => {}
         }
     }
+    if load && num(toks, "craft") == 5 {
+        // the glyph is in memory now; remove the file so that re-creating it outside the target is visible
+        let _ = std::fs::remove_file(src.parent().unwrap().join("esc.glif"));
+    }
     make_invalid(&mut font, &mut tr, kinds);
+    craft_font(&mut font, &mut tr, num(toks, "craft"));
     let edits = field(toks, "e");
     if !edits.is_empty() {
         for op in edits.split(',') {
@@ -155,8 +225,19 @@ pub fn observe(toks: &[&str], scratch: &Path) -> String {
     let pre_tok = tree_token(&sb);
     let r = save_result(&font, &target);
     let post_tok = tree_token(&sb);
+    let mut extra = String::new();
+    if fresh {
+        // the same font once more into a fresh path of another sandbox: byte-for-byte comparison of the two trees
+        let fsb = scratch.join("fresh/o/m");
+        rm_rf(&scratch.join("fresh"));
+        std::fs::create_dir_all(&fsb).unwrap();
+        let r2 = save_result(&font, &fsb.join("f.ufo"));
+        let same = r == "ok" && r2 == "ok" && snapshot(&target) == snapshot(&fsb.join("f.ufo"));
+        extra = format!(" FRESH={}:{}", r2, if same { "same" } else { "diff" });
+        rm_rf(&scratch.join("fresh"));
+    }
     rm_rf(&sb);
-    format!("{} T={} PRE={} R={} POST={}", desc, trel, pre_tok, r, post_tok)
+    format!("{} T={} PRE={} R={} POST={}{}", desc, trel, pre_tok, r, post_tok, extra)
 }
 
 fn emit(out: &mut dyn Write, scratch: &Path, recipe: &str) {
